@@ -389,6 +389,84 @@ def rule_taint(prog, run, rid, only_files=None):
     return n_src
 
 
+def rule_loop_progress(prog, run, rid):
+    """every loop whose condition is "<local DOM node>.isNull()" re-assigns that node on every path back to the loop head"""
+    n_loops = 0
+    for f in prog.fns.values():
+        if f.entry is None or f.raw.get('dependent'):
+            continue
+        dom = None
+        for b in f.blocks.values():
+            t = b.get('term')
+            if not t or t.get('k') not in ('while', 'for', 'do') or 'cond' not in t:
+                continue
+            # loop variables: locals whose isNull()/atEnd() is tested in the condition
+            lvars = {}
+            for j in f.walk(t['cond']):
+                m = f.nodes[j]
+                if m['k'] == 'call' and f.cname(m) in ('QDomNode::isNull', 'QDomElement::isNull') and m.get('obj') is not None:
+                    o = f.nodes[f.skip(m['obj'])]
+                    if o['k'] == 'var' and o.get('vk') == 'local':
+                        lvars[o['decl']] = o.get('name', '?')
+            if not lvars:
+                continue
+            if dom is None:
+                dom = f.dom()
+            head = b['id']
+            body_entry = b['succs'][0] if t['k'] != 'do' else None
+            if body_entry is None:
+                continue
+            in_loop = {x for x in f.blocks if ('b', head) in dom.get(('b', x), set())}
+            # blocks of the loop = dominated by the head and able to reach it again
+            preds = f.preds_map()
+            reach_head = set()
+            stack = [head]
+            while stack:
+                x = stack.pop()
+                for pr in preds.get(x, ()):
+                    if pr in in_loop and pr not in reach_head and pr != head:
+                        reach_head.add(pr)
+                        stack.append(pr)
+            for decl, name in lvars.items():
+                n_loops += 1
+                run.instance(rid)
+                assigns = set()
+                for i, n in f.all_nodes('assign'):
+                    l = f.nodes[f.skip(n['l'])]
+                    if l['k'] == 'var' and l.get('decl') == decl and f.pos(i):
+                        assigns.add(f.pos(i)[0])
+                for i, n in f.calls():
+                    if n.get('op') == '=' and n.get('opargs') and f.nodes[f.skip(n['opargs'][0])].get('decl') == decl and f.pos(i):
+                        assigns.add(f.pos(i)[0])
+                # search a path body_entry -> head through loop blocks that never passes an assigning block
+                seen = set()
+                stack = [(body_entry, [body_entry])]
+                witness = None
+                while stack and witness is None:
+                    x, path = stack.pop()
+                    if x in seen or x in assigns:
+                        continue
+                    seen.add(x)
+                    for sx in f.blocks[x]['succs']:
+                        if sx is None:
+                            continue
+                        if sx == head:
+                            witness = path
+                            break
+                        if sx in reach_head:
+                            stack.append((sx, path + [sx]))
+                if body_entry not in reach_head and body_entry != head:
+                    run.ok(rid, f.loc(t['cond']), 'loop over %s never iterates twice' % name, nontrivial=False)
+                elif witness is None:
+                    run.ok(rid, f.loc(t['cond']), '%s: %s is advanced on every path back to the loop head' % (f.display()[:50], name))
+                else:
+                    lines = sorted({f.nodes[e].get('ln') for x in witness for e in f.blocks[x]['elems'] if f.nodes[e].get('ln')})
+                    run.violation(rid, '%s#loop-without-progress#%s' % (f.qname, name), f.loc(t['cond']),
+                                  'the loop over DOM node "%s" has a path back to its head that does not advance the node (lines %s..%s, e.g. a continue before '
+                                  'the nextSibling assignment): parsing such a document never terminates' % (name, lines[0] if lines else '?', lines[-1] if lines else '?'))
+    return n_loops
+
+
 def run(prog, run):
     run.explanation = ('Structural safety clauses for every parser: scalar members of parsed records are definitely initialised at every creation site; '
                        'integers become enums only behind a check; sizes, indices and loop bounds derived from attributes/text/wire integers are '
@@ -416,8 +494,12 @@ def run(prog, run):
         run.rules[r4]['discharged'] += r['discharged']
         run.rules[r4]['samples'] += r['samples'][:3]
 
+    r5 = run.rule('C02.R5', 'parsers terminate on sibling lists: every loop guarded by isNull() of a local DOM node advances that node on every path back to '
+                            'the loop head (continue included)', floor=18)
+    run.extra['dom_loops'] = rule_loop_progress(prog, run, r5)
+
     # positive controls: the zero-expected rules must fire on controls/c02_controls.cpp
-    rc = run.rule('C02.controls', 'positive controls: R1, R2 and R3 each report their seeded construct in controls/c02_controls.cpp', floor=3)
+    rc = run.rule('C02.controls', 'positive controls: R1, R2, R3 and R5 each report their seeded construct in controls/c02_controls.cpp', floor=4)
     cpath = os.path.join(build.VERIF, 'controls', 'c02_controls.cpp')
     cprog = facts.Program(build.extract_control(cpath))
     bad = [u for u in cprog.units.values() if u.bad_diags()]
@@ -425,7 +507,8 @@ def run(prog, run):
         raise AnalysisBroken('C02 control does not compile: %s' % bad[0].bad_diags()[:2])
     for name, fn, want in (('R1', lambda s, r: rule_init(cprog, s, r, control=True), 'never_set'),
                            ('R2', lambda s, r: rule_enum_casts(cprog, s, r), 'cast_unchecked'),
-                           ('R3', lambda s, r: rule_taint(cprog, s, r), 'taint_')):
+                           ('R3', lambda s, r: rule_taint(cprog, s, r), 'taint_'),
+                           ('R5', lambda s, r: rule_loop_progress(cprog, s, r), 'loop_no_progress')):
         sub = type(run)(run.prop, run.tier, run.seed)
         rr = sub.rule('x', 'x')
         fn(sub, rr)
